@@ -272,8 +272,8 @@ PROPS["C08"] = dict(
 
 PROPS["C09"] = dict(
     level="proof",
-    verus=["c09_order", "c09_list_optimize", "c05_grouping", "c08_shape", "c08_wiring"],
-    labels=["C09.", "C08.from_wire.", "C08.to_wire.", "C08.shape.", "C05.grouping."] + MASK,
+    verus=["c09_order", "c09_list_optimize", "c05_grouping", "c08_shape", "c08_wiring", "c04_partition"],
+    labels=["C09.", "C08.from_wire.", "C08.to_wire.", "C08.shape.", "C05.grouping.", "C04.new.tagged"] + MASK,
     kani=[],
     trusted=["slice::sort_by_key sorts by the key and permutes (R6 lift)", "apply_optimisation (unit c05_grouping) regroups through a HashMap whose iteration order is arbitrary: its contract is order-free (which groups are fused, what is kept)",
              "NetworkFilterList::optimize (unit c09_list_optimize): HashMap::drain = every entry once in some order, Arc::try_unwrap = taken out iff not shared, into_iter().map(Arc::new).collect() = element-wise (R5/R6 lifts); optimizer::optimize enters as an uninterpreted function of the rules handed in",
@@ -322,8 +322,8 @@ for _p in PROPS.values():
 
 PROPS["C17"] = dict(
     level="proof",
-    verus=["c17_generic"],
-    labels=["C17."],
+    verus=["c17_generic", "c16_store"],
+    labels=["C17.", "C16.rule.hidden_generic_rule.", "C16.add_filter."],
     kani=[],
     witness=["c17_keys.rs"],
     trusted=["key_from_selector (three regexes + CSS unescaping): key_spec is uninterpreted; assumed only that a key starts with the selector's own first character. Its behaviour on concrete selectors is covered by witness inputs replayed on the real crate (vf/witness/c17_keys.rs), not by a contract",
